@@ -256,6 +256,12 @@ package part
 //@ func lowerbound
 //@   trusted
 //@   pure
+// All runs the consumer while the traversal is in progress: the tree it walks is frozen first.
+//@ func (*Txn).All
+//@   property C01 C02 C06 C11 C12 C17
+//@   flag nosafety
+//@   requires txn != nil
+//@   atcall Iterator.All@1 requires @bump-before-the-consumer-runs txn.txnID == old(txn.txnID) + 1
 //@ func (*Txn).Iterator
 //@   property C01 C02 C06 C11 C12 C17
 //@   requires txn != nil
@@ -357,6 +363,7 @@ package part
 //@   requires txn != nil && parent != nil && txn.watches != nil && 2 <= kindOf(parent.flags) && kindOf(parent.flags) <= 5
 //@   ensures @watches-only-grow forall c ptr :: old(has(txn.watches, c)) ==> has(txn.watches, c)
 //@   ensures @old-nodes-keep-their-watch unchangedOld(H_part_header_watch, H_part_Txn_watches, H_part_Txn_txnID, H_part_node4_leaf, H_part_node16_leaf, H_part_node48_leaf, H_part_node256_leaf)
+//@   ensures @replaced-parent-watch-recorded result != parent && old(parent.watch) != nil ==> has(txn.watches, old(parent.watch))
 //@   atcall (*header).setTxnID@* requires @stamp-only-with-safe-watch $0.watch == nil || fresh($0.watch) || has(txn.watches, $0.watch)
 //@   atcall (*header).setLeaf@* requires @mutate-owned fresh($0) || (kindOf($0.flags) != 1 && txnIDOf($0) == txn.txnID)
 //@   atcall (*header).insert@* requires @mutate-owned fresh($0) || (kindOf($0.flags) != 1 && txnIDOf($0) == txn.txnID)
